@@ -44,6 +44,16 @@ StepHugeOp(e) ==
   /\ e.ev = "hugeop"
   /\ Report(e.case, HugeFails(pbox, stack, e.op, e.parent), [op |-> [m |-> e.op.m, area |-> e.op.area], nparent |-> Len(e.parent)])
   /\ UNCHANGED <<pbox, stack, fb, native>>
+\* fill_contiguous of a huge area through ONE clipped layer, with the colour stream colour(row, column) =
+\* (7 row + 3 column) mod 251 of the area: the parent holds exactly that picture on clip /\ pbox /\ area
+StepHugeClip(e) ==
+  /\ e.ev = "hugeclip"
+  /\ LET inter == Intersection(Intersection(e.clip, e.pbox), e.area)
+         got == ApplyAll(EmptyFb, e.pbox, e.parent)
+         want == [p \in PointsOf(inter) |-> (7 * (p[2] - e.area[2]) + 3 * (p[1] - e.area[1])) % 251]
+     IN Report(e.case, IF got = want THEN {} ELSE {"huge_area_through_clip_differs"},
+               [area |-> e.area, clip |-> e.clip, nparent |-> Len(e.parent), npoints |-> Cardinality(DOMAIN got)])
+  /\ UNCHANGED <<pbox, stack, fb, native>>
 \* an operation that panicked did not leave the parent "exactly as if the operation had been applied"
 StepOpPanic(e) ==
   /\ e.ev = "oppanic"
@@ -51,7 +61,7 @@ StepOpPanic(e) ==
   /\ UNCHANGED <<pbox, stack, fb, native>>
 StepPanic(e) == e.ev = "panic" /\ UNCHANGED <<pbox, stack, fb, native>>
 Next == /\ l <= NRec
-        /\ LET e == Rec[l] IN StepCase(e) \/ StepStack(e) \/ StepOp(e) \/ StepHugeOp(e) \/ StepOpPanic(e) \/ StepPanic(e)
+        /\ LET e == Rec[l] IN StepCase(e) \/ StepStack(e) \/ StepOp(e) \/ StepHugeOp(e) \/ StepHugeClip(e) \/ StepOpPanic(e) \/ StepPanic(e)
         /\ l' = l + 1
 Spec == Init /\ [][Next]_<<l, pbox, stack, fb, native>>
 Done == IF TLCGet("stats").diameter = NRec + 1
